@@ -9,6 +9,4 @@ package crypto
 //@ -- (Key).CheckKey: assumed pure contract in zz_contracts_c05_verif.go (result <==> ValidPoint(k))
 
 //@ -- ASSUMED: signing reads the key and the hash, writes nothing visible (may panic on a non-canonical private key: not a parsing concern).
-//@ assume func (privateKey *Key) Sign
-//@   requires privateKey != nil
-//@   modifies nothing
+//@ -- (*Key).Sign: assumed contract in zz_contracts_c30_verif.go
